@@ -12,7 +12,7 @@ def ref_pred(alias):
     return ('bin', '>', ('f', 'x'), ('fa', ('var', alias), 'x'))
 
 
-def mk(scope_i: int, pattern_i: int, wa: int, wq: int, wt: int, wb: int, deco: int, max_time, title) -> Dict[str, Any]:
+def mk(scope_i: int, pattern_i: int, wa: int, wq: int, wt: int, wb: int, deco: int, max_time, title, nest: str = 'or') -> Dict[str, Any]:
     scope = props.SCOPES[scope_i]
     pattern = props.PATTERNS[pattern_i]
     p: Dict[str, Any] = {'scope': scope, 'pattern': pattern, 'activator': None, 'terminator': None, 'trigger': None,
@@ -32,7 +32,10 @@ def mk(scope_i: int, pattern_i: int, wa: int, wq: int, wt: int, wb: int, deco: i
             pr = [(XGT if i % 2 == 0 else None) for i in range(w)]
         if ref is not None:
             pr = [ref_pred(ref) for _ in range(w)]
-        return props.mk_event(prefix, w, al, pr)
+        ev = props.mk_event(prefix, w, al, pr)
+        if nest != 'or' and ev[0] == 'or' and len(ev) > 3:
+            ev = (nest,) + ev[1:]  # API-built nesting of the same alternatives in the same source order
+        return ev
 
     if deco == 0:
         am = {'a': None, 'q': None, 't': None, 'b': None}
@@ -104,6 +107,9 @@ def check(spec, twin: bool = False, totality: bool = False, want_text: bool = Tr
         return None  # not a valid property: outside the quantifier of C11
     prop = props.build_property(spec, cached_events=not want_text)
     text = props.render_property(spec) if want_text else ''  # never rendered under symbolic execution
+    want_mt = spec.get('max_time')
+    if (want_mt is None and prop.pattern.max_time != float('inf')) or (want_mt is not None and not (prop.pattern.max_time == want_mt)):
+        return ('callback-time-bound', repr(prop.pattern.max_time), text)
     try:
         outs = canonical_form(prop)
     except Exception as e:
